@@ -15,6 +15,8 @@ import (
 func init() {
 	vfRegister("VerifC58_limit", VerifC58_limit)
 	vfRegister("VerifC58_closed", VerifC58_closed)
+	vfRegister("VerifC58_concurrentClose", VerifC58_concurrentClose)
+	vfRegister("VerifC58_transientError", VerifC58_transientError)
 }
 
 type c58world struct {
@@ -24,13 +26,26 @@ type c58world struct {
 	closed bool
 }
 
-type c58listener struct{ w *c58world }
+type c58listener struct {
+	w         *c58world
+	transient int // number of temporary errors to return before accepting connections
+}
+
+type c58tempErr struct{}
+
+func (c58tempErr) Error() string   { return "c58: temporary accept error" }
+func (c58tempErr) Timeout() bool   { return false }
+func (c58tempErr) Temporary() bool { return true }
 
 var c58errClosed = errors.New("c58: listener closed")
 
 func (l *c58listener) Accept() (net.Conn, error) {
 	if l.w.closed {
 		return nil, c58errClosed
+	}
+	if l.transient > 0 {
+		l.transient--
+		return nil, c58tempErr{}
 	}
 	l.w.open++
 	vfAssert(l.w.open <= l.w.n, "at most n accepted connections are open")
@@ -71,7 +86,7 @@ func VerifC58_limit() {
 		nacc = 3
 	}
 	w := &c58world{n: n}
-	ll := LimitListener(&c58listener{w}, n)
+	ll := LimitListener(&c58listener{w: w}, n)
 	done := make(chan int, nacc+1)
 	accepted := 0
 	for i := 0; i < nacc; i++ {
@@ -117,7 +132,7 @@ func VerifC58_limit() {
 func VerifC58_closed() {
 	n := 1 + vfChoice("n", 2)
 	w := &c58world{n: n}
-	ll := LimitListener(&c58listener{w}, n).(*limitListener)
+	ll := LimitListener(&c58listener{w: w}, n).(*limitListener)
 	var conns []net.Conn
 	for i := 0; i < n; i++ {
 		c, err := ll.Accept()
@@ -125,6 +140,58 @@ func VerifC58_closed() {
 		conns = append(conns, c)
 	}
 	vfAssert(len(ll.sem) == n, "all slots taken")
+	blocked := vfBlocks(func() { ll.Accept() })
+	vfAssert(blocked, "Accept at the limit blocks")
+	vfReach("end")
+}
+
+// Two goroutines close the SAME connection concurrently while another connection stays open:
+// exactly one slot is freed (added after seeded change C58-A: a load-then-store flag instead of sync.Once).
+func VerifC58_concurrentClose() {
+	vfNoDeadlock()
+	const n = 2
+	w := &c58world{n: n}
+	ll := LimitListener(&c58listener{w: w}, n)
+	c1, err1 := ll.Accept()
+	_, err2 := ll.Accept()
+	vfAssert(err1 == nil && err2 == nil, "two accepts below the limit")
+	done := make(chan int, 2)
+	for i := 0; i < 2; i++ {
+		vfGo(func() {
+			c1.Close()
+			done <- 1
+		})
+	}
+	<-done
+	<-done
+	vfAssert(w.open == 1, "one inner connection left open")
+	_, err3 := ll.Accept() // the freed slot
+	vfAssert(err3 == nil, "the freed slot can be taken")
+	blocked := vfBlocks(func() { ll.Accept() }) // the stub asserts open <= n if this wrongly succeeds
+	vfAssert(blocked, "a double close frees exactly one slot: the next Accept blocks")
+	vfReach("end")
+}
+
+// The wrapped listener reports a temporary error before delivering a connection; the caller retries as net/http
+// does. The limit still holds (added after seeded change C58-B: an internal retry loop that does not re-acquire).
+func VerifC58_transientError() {
+	n := 1 + vfChoice("n", 2)
+	w := &c58world{n: n}
+	inner := &c58listener{w: w, transient: 1 + vfChoice("transient", 2)}
+	ll := LimitListener(inner, n)
+	got := 0
+	for tries := 0; got < n && tries < n+3; tries++ {
+		c, err := ll.Accept()
+		if err != nil {
+			ne, ok := err.(net.Error)
+			vfAssert(ok && ne.Temporary(), "only the injected temporary error is reported")
+			continue
+		}
+		vfAssert(c != nil, "a connection without an error")
+		got++
+	}
+	vfAssert(got == n && w.open == n, "n connections accepted")
+	vfAssert(len(ll.(*limitListener).sem) == n, "every accepted connection holds a slot")
 	blocked := vfBlocks(func() { ll.Accept() })
 	vfAssert(blocked, "Accept at the limit blocks")
 	vfReach("end")
